@@ -91,35 +91,50 @@ Definition http_route (req : str) : routed :=
   | _ => Crash
   end.
 
-(* WAPProtocol.canhandlerequest (called again by handle): a target that starts with
-   waptop loses that prefix before anything is decoded *)
+(* WAPProtocol.canhandlerequest (called again by handle): a target that is waptop, or
+   starts with waptop + "/" or waptop + "?", loses that prefix before anything is decoded
+   (/repo 99beac0; the pinned code cut the prefix off every target that started with it) *)
+Definition wap_prefixed (waptop t : str) : bool :=
+  str_eqb t waptop || prefixb (waptop ++ [SLASH]) t || prefixb (waptop ++ [QMARK]) t.
 Definition wap_strip (waptop t : str) : str :=
+  if wap_prefixed waptop t then skipn (List.length waptop) t else t.
+Definition wap_strip_pinned (waptop t : str) : str :=
   if prefixb waptop t then skipn (List.length waptop) t else t.
 (* when the line does not have the HTTP shape, canhandlerequest returns before touching
    requestparts[1] *)
-Definition wap_route (waptop req : str) : routed :=
+Definition wap_route_with (strip_fn : str -> str -> str) (waptop req : str) : routed :=
   match http_parts req with
-  | _ :: t :: _ => http_of_target (if http_shape req then wap_strip waptop t else t)
+  | _ :: t :: _ => http_of_target (if http_shape req then strip_fn waptop t else t)
   | _ => Crash
   end.
+Definition wap_route : str -> str -> routed := wap_route_with wap_strip.
+Definition wap_route_pinned : str -> str -> routed := wap_route_with wap_strip_pinned.
 
 (* ---------- Gemini ---------- *)
 Definition QUERY_PREFIX : str := lit "/GEMINI-QUERY".
 
+(* the prefix as a whole path segment (/repo 3c20be2; the pinned code tested
+   selector.startswith("/GEMINI-QUERY")) *)
+Definition gemini_prefixed (sel : str) : bool :=
+  str_eqb sel QUERY_PREFIX || prefixb (QUERY_PREFIX ++ [SLASH]) sel.
+Definition gemini_prefixed_pinned (sel : str) : bool := prefixb QUERY_PREFIX sel.
+
 (* handle(): urlparse(request.strip()); path and query; the /GEMINI-QUERY dance of handle_input *)
-Definition gemini_route (req : str) : routed :=
+Definition gemini_route_with (prefixed : str -> bool) (req : str) : routed :=
   match urlparse (strip req) with
   | None => GeminiBad
   | Some u =>
       let sel := u_path u in
       let q := u_query u in
-      if prefixb QUERY_PREFIX sel then
+      if prefixed sel then
         match q with
         | [] => GeminiInput
         | _ => GeminiRedirect (skipn (List.length QUERY_PREFIX) sel ++ [QMARK] ++ q)
         end
       else ToHandler (slashnormalize (unquote_py sel)) (Some (unquote_py q))
   end.
+Definition gemini_route : str -> routed := gemini_route_with gemini_prefixed.
+Definition gemini_route_pinned : str -> routed := gemini_route_with gemini_prefixed_pinned.
 (* the one place where the model may say ToHandler/... while the code answers 59 *)
 Definition gemini_unchecked (req : str) : bool := netloc_unchecked (strip req).
 
